@@ -1,0 +1,9 @@
+//go:build verif
+
+// Verification hook (build tag verif) for property C04: the C04 shard wrapper seen as the generic VerifShard of
+// verif_export_c02.go, so that the C04 harness can run aggregate selects (VerifShard.Select of verif_export_c09.go:
+// CreateCursor + ChunkReader, the store-side part of the select path) on the shard it drives. No behaviour of its own.
+package engine
+
+// VerifC04AsVerifShard returns a VerifShard over the same shard object (no ownership: do not Close it).
+func (v *VerifC04Shard) VerifC04AsVerifShard() *VerifShard { return &VerifShard{sh: v.sh} }
